@@ -24,7 +24,7 @@ def _get_finders_by_type() -> dict:
             'prj': finder_projects,
             'pr': finder_kinds,
             'ct': finder_kinds,
-            'lib': finder_kinds,
+            'l_ib': finder_kinds,
             'default': finder_paths,
         })
     return _finders_by_type
@@ -47,7 +47,7 @@ def _get_default_getter():
 
 
 def get_getter_for(sid, attribute=None, config=None):
-    getters_by_type = {'prj': None, 'pr': None, 'ct': None, 'lib': None, 'default': _get_default_getter()}
+    getters_by_type = {'prj': None, 'pr': None, 'ct': None, 'l_ib': None, 'default': _get_default_getter()}
     if sid.type in getters_by_type:
         return getters_by_type.get(sid.type)
     return getters_by_type.get('default')
